@@ -2078,5 +2078,16 @@ def check(repo, rep, tier):
   rule_lfda_scatter(repo, rep)
   rule_lfda_affinity(repo, rep)
   rule_lfda_solver(repo, rep)
+  # RCA's total covariance (the numerator of the retained-variance ratio) is
+  # that of the points as given: the chunk centring must not write into the
+  # array fit goes on to use (FRESH rule of C17, RCA only)
+  from . import c17 as _c17
+  before = len(rep.obs)
+  fl = len(rep.floors)
+  _c17.rule_writes(repo, rep)
+  rep.obs[before:] = [o for o in rep.obs[before:]
+                      if o['construct'].startswith(('RCA.fit',
+                                                    'RCA_Supervised.fit'))]
+  rep.floors = rep.floors[:fl]
 
 
